@@ -114,6 +114,7 @@ def run(ctx):
                               {"kind": "xxh-big", "cmd": "xxh-big", "record": rec, "tlc": rj["tlc"]})
             else:
                 raise vlib.MachineryFault("xxh-big record not reproducible")
+    frame_level(ctx, b, d)
     ctx.trusted += ["ref.XXH32/ref.Stream (Go transcription of XXH32.tla; %d records recomputed by TLC this run)"
                     % ctx.extra["ref_conformance_records"]]
     ctx.assumptions += ["amd64: the arm assembly of xxh32 is not executed on this host",
@@ -198,3 +199,53 @@ def selftest(ctx):
         raise vlib.MachineryFault("selftest: wrong expectation not reported by the replayer")
     print("selftest C13 ok")
     return 0
+
+
+def frame_level(ctx, b, d):
+    """The checksum as it is used in frames: header byte, block and content checksums of frames emitted by the Writer are
+    recomputed by TLC (LZ4Frame!ParseStrict over XXH32.tla), and frames written by the independent encoder - whose checksum
+    fields come from the reference function - must be accepted by the Reader (so both directions use reference XXH32)."""
+    import random
+    from checks import framelib as fl
+    rnd = random.Random(ctx.seed + 1313)
+    cases = []
+    for i in range(24):
+        o = {"code": 4 + i % 2, "bcs": i % 2 == 0, "ccs": i % 3 != 2, "level": 0, "conc": 1 + (i % 2) * 3, "legacy": False, "handler": False}
+        n = [0, 1, 16, 17, 100, 333][i % 6]
+        if i % 4 == 1:
+            o["size"] = [n or 5, 123, 1 << 32, (1 << 64) - 1][(i // 4) % 4]
+        inp = fl.input_for(rnd, n, rnd.choice(["text", "random"]))
+        cases.append({"id": i + 1, "input": inp, "opts": o, "calls": [{"op": "write", "n": n}, {"op": "close"}]})
+    recs, faults = fl.shard_run(b, "frame-write", cases, d, "c13w")
+    if faults:
+        raise vlib.MachineryFault("frame-write failed: %s" % faults[0]["stderr"][-500:])
+    tp = os.path.join(d, "c13-emit.ndjson")
+    vlib.write_ndjson(tp, [fl.emit_events(recs[c["id"]]) for c in cases])
+    acc, rej = vlib.validate_trace(ctx, "LZ4Frame_Trace", tp, cfg="LZ4Frame_Trace_C09", timeout=900)
+    ctx.evaluations += len(cases)
+    for rj in rej:
+        rec = json.loads(rj["line"])
+        c = cases[rec["case"] - 1]
+        again, _ = fl.shard_run(b, "frame-write", [c], d, "c13again", nshards=1)
+        t2 = os.path.join(d, "c13-again.ndjson")
+        vlib.write_ndjson(t2, [fl.emit_events(again[c["id"]])])
+        sub = vlib.Ctx(ctx.prop, ctx.tier, ctx.seed)
+        a2, rej2 = vlib.validate_trace(sub, "LZ4Frame_Trace", t2, cfg="LZ4Frame_Trace_C09", shards=1)
+        if rej2:
+            st = again[c["id"]]["frames"][0]["status"]
+            ctx.violation("frame:%s:size=%s" % (st, "yes" if c["opts"].get("size") else "no"),
+                          "a checksum field of an emitted frame is not reference XXH32 (strict parse: %s)" % st,
+                          {"kind": "xxh-frame", "case": c, "frame": again[c["id"]].get("bytes")})
+    # frames from the independent encoder, read by the real Reader
+    rc = []
+    for i in range(24):
+        blocks = [{"size": rnd.choice([0, 1, 16, 40, 300]), "kind": rnd.choice(["raw", "lits", "m1"])} for _ in range(1 + i % 3)]
+        rc.append({"id": i + 1, "chunks": [], "cfg": {"conc": 1 + (i % 2) * 3, "mode": ["read", "writeto"][i % 2], "bufs": [4096]},
+                   "plan": {"code": 4, "bcs": True, "ccs": True, "seed": 500 + i, "blocks": blocks}})
+    rr, faults = fl.shard_run(b, "frame-read", rc, d, "c13r")
+    ctx.evaluations += len(rc)
+    for c in rc:
+        r = rr[c["id"]]
+        if r["outcome"] != "clean" or not r["sameAsContent"]:
+            ctx.violation("frame-read:%s" % r["err"], "the Reader rejects a frame whose checksum fields are reference XXH32 (%s)" % r["err"],
+                          {"kind": "xxh-frame-read", "case": c, "observed": {k: v for k, v in r.items() if k not in ("bytes", "delivered", "content")}})
